@@ -97,7 +97,7 @@ func init() {
 						// quick: depth-1 histories on every layout, deeper ones on every third
 						lay := lay
 						histories(r, alpha, 1, func(ops []memOp) {
-							memDo(r, memCase{Mem: "bytes", Blocks: lay, Ops: append([]memOp{}, ops...), Top: top, MaxA: 11, MaxW: 3})
+							memDo(r, memCase{Mem: "bytes", Blocks: lay, Ops: append([]memOp{}, ops...), Top: top, Far: top, MaxA: 11, MaxW: 3})
 						})
 						continue
 					}
@@ -107,7 +107,7 @@ func init() {
 						d = 2
 					}
 					histories(r, alpha, d, func(ops []memOp) {
-						c := memCase{Mem: "bytes", Blocks: lay, Ops: append([]memOp{}, ops...), Top: top, MaxA: 11, MaxW: 3}
+						c := memCase{Mem: "bytes", Blocks: lay, Ops: append([]memOp{}, ops...), Top: top, Far: top, MaxA: 11, MaxW: 3}
 						if len(ops) <= 2 {
 							memDoRW(r, c) // all read/write interleavings
 						} else {
@@ -183,7 +183,7 @@ func init() {
 			for _, b := range bases[60:] {
 				b := b
 				histories(r, alpha, 2, func(ops []memOp) {
-					memDo(r, memCase{Mem: "overlay", Base: b.kind, Blocks: b.blocks, Pre: b.pre, Ops: append([]memOp{}, ops...), Top: true, MaxA: 7, MaxW: 4, ExtraW: []int{6, 8}})
+					memDo(r, memCase{Mem: "overlay", Base: b.kind, Blocks: b.blocks, Pre: b.pre, Ops: append([]memOp{}, ops...), Top: true, Far: true, MaxA: 7, MaxW: 4, ExtraW: []int{6, 8}})
 				})
 			}
 			memTopEnd(r, []memCase{{Mem: "overlay", Base: "bytes"}, {Mem: "overlay", Base: "sparse"}})
